@@ -62,8 +62,8 @@ func (d *denoter) val(v reflect.Value) *hspec.Value {
 	// a decoded []interface{} or map may contain itself: fail recoverably instead of overflowing the stack
 	d.depth++
 	defer func() { d.depth-- }()
-	if d.depth > 5000 {
-		panic("zoo.Denote: value nested deeper than 5000 (self-containing container?)")
+	if d.depth > 100000 {
+		panic("zoo.Denote: value nested deeper than 100000 (self-containing container?)")
 	}
 	t := v.Type()
 	switch t.Kind() {
